@@ -163,6 +163,44 @@ theorem C03_decode_once_absolute {ι : Type} (tbl : Table ι) (hwf : ∀ e ∈ t
   unfold routeHTTP
   rw [pathChoice_parseRequestURI_abs hsch hr hq hp, C03_route_iff tbl hwf]
 
+/-- Absolute-form targets with ANY authority (userinfo, `[v6]` literals with zones, ports, %-escapes in the host), as
+    `url.ParseRequestURI` treats them: the authority is only a gate — `parseAuthority` (`authorityOk`) decides between
+    a parse error (net/http answers 400 before any routing) and success, and on success `Path`/`RawPath` are `setPath`
+    of the text after the authority, exactly as for an origin-form target with that text. Together with
+    `C03_decode_once_absolute` (whose hypothesis `parseRequestURI raw = some (some u)` no longer excludes any
+    authority): nothing in the authority can change what is routed or captured. -/
+theorem C03_absolute_authority (raw sch rest a : Bytes) (hctl : containsCTL raw = false)
+    (hsch : getScheme true [] raw = some (some (sch, rest))) (hr : beforeQuery rest = 47 :: 47 :: a) :
+    parseRequestURI raw =
+      some (if authorityOk (a.takeWhile (· != 47)) then setPath (a.dropWhile (· != 47)) else none) :=
+  parseRequestURI_abs hctl hsch hr
+
+/-- An absolute-form target without a path (`GET http://host HTTP/1.1`) has `Path = ""`: no leading slash, so
+    `RouteHTTP` answers InvalidArgument whatever the table holds. -/
+theorem C03_absolute_no_path {ι : Type} (tbl : List (Route ι)) (m raw sch rest a : Bytes) (u : Url)
+    (hctl : containsCTL raw = false)
+    (hsch : getScheme true [] raw = some (some (sch, rest))) (hr : beforeQuery rest = 47 :: 47 :: a)
+    (hq : a.dropWhile (· != 47) = []) (hp : parseRequestURI raw = some (some u)) :
+    routeHTTP tbl m u = .error .invalidArgument := by
+  rw [parseRequestURI_abs hctl hsch hr, hq] at hp
+  split at hp
+  · simp only [setPath, urlUnescape, escapesOk, urlUnescapeBuild, urlEscape, ↓reduceIte, Option.some.injEq] at hp
+    subst hp
+    simp [routeHTTP, pathChoice_empty, routePath]
+  · cases hp
+
+/-! `http://u:p%40@[fe80::1%25en0]:80/v/a%2Fb?x` parses (userinfo with an escape, IPv6 literal with a zone, port) and
+    keeps `RawPath = /v/a%2Fb`; `%41` in a host, a missing `]`, a non-numeric port, `%zz` in the userinfo are errors. -/
+example : parseRequestURI [104, 116, 116, 112, 58, 47, 47, 117, 58, 112, 37, 52, 48, 64, 91, 102, 101, 56, 48, 58, 58, 49, 37,
+      50, 53, 101, 110, 48, 93, 58, 56, 48, 47, 118, 47, 97, 37, 50, 70, 98, 63, 120] =
+    some (some ⟨[47, 118, 47, 97, 47, 98], [47, 118, 47, 97, 37, 50, 70, 98]⟩) := by decide
+example : parseRequestURI [104, 58, 47, 47, 104, 37, 52, 49, 47, 97] = some none ∧           -- h://h%41/a
+    parseRequestURI [104, 58, 47, 47, 91, 58, 58, 49, 47, 97] = some none ∧                  -- h://[::1/a
+    parseRequestURI [104, 58, 47, 47, 104, 58, 56, 120, 47, 97] = some none ∧                -- h://h:8x/a
+    parseRequestURI [104, 58, 47, 47, 37, 122, 122, 64, 104, 47, 97] = some none ∧           -- h://%zz@h/a
+    parseRequestURI [104, 58, 47, 47, 104, 37, 67, 51, 37, 65, 57, 47, 97] = some (some ⟨[47, 97], []⟩) := by  -- h://h%C3%A9/a
+  decide
+
 /-- net/url's default path escaping is undone by exactly one decoding pass, segment by segment:
     `unescape(escape(s)) = s`, for the matcher's single-segment decoder as well, and `/` is neither escaped nor
     produced by escaping. -/
